@@ -515,7 +515,7 @@ def validate(recs, variant, V, stats, judge=True):
             continue
         traces = [abstract(r) for r in part]
         verdicts, st = C.validate_traces('StreamCodecTrace', traces,
-                                         cfg_text=trace_cfg(codec, variant), chunk=300)
+                                         cfg_text=trace_cfg(codec, variant), chunk=500)
         for k in ('states', 'transitions', 'tlc_runs'):
             stats[k] += st[k]
         out += list(zip(part, traces, verdicts))
@@ -583,8 +583,8 @@ def main(tier, replay):
         jobs.append(('last data unit ends the stream (zstd frame shape), as coded',
                      dict(fused, AfterEof='error', Wrapper='coded'), INVS_ALL, None))
 
-    nsim = 3000 if thorough else 500
-    cap = 1200 if thorough else 150
+    nsim = 3000 if thorough else 300
+    cap = 1200 if thorough else 120
     gens = []
     for codec in ('gzip', 'zstd'):
         pol = dict(AfterEof=CODECS[codec]['after_eof'],
